@@ -13,6 +13,7 @@ import disasm
 import asm
 import vmapi
 import jit as jit_unit
+import clif
 
 MACHINERY_FILES = ('src/spec.rs', 'contract.rs', 'src/shadow.rs', 'src/x86.rs')
 
@@ -308,6 +309,7 @@ UNITS = {
     'asm': dict(run=kani_unit(asm.generate, harness_file='src/assembler.rs')),
     'vmapi': dict(run=kani_unit(vmapi.generate, harness_file='src/harnesses.rs')),
     'jit': dict(run=kani_unit(jit_unit.generate, harness_file='src/jit/harnesses.rs')),
+    'clif': dict(run=kani_unit(clif.generate, harness_file='src/cranelift/harnesses.rs')),
     'cfgdiff': dict(run=cfgdiff_unit()),
     'asmtable': dict(run=native_unit(['asm-table'], 'assemble() of the documented mnemonic')),
 }
